@@ -548,6 +548,17 @@ def rewrite_body(rf: RepoFile, it: Item, d: FnDirective, rules: dict, info: FnIn
             edits.append(Edit(ct[j + 1].start - base, ct[j + 1].end - base, '_verif_x', None))
             rules['R5'] = rules.get('R5', 0) + 1
 
+    # R5b: a constructor/function path used as a function value in map_err(..) -> eta-expanded closure
+    for j in range(body_open_idx, len(ct) - 3):
+        if ct[j].kind == 'ident' and ct[j].text in ('map_err',) and ct[j + 1].kind == 'punct' and ct[j + 1].text == '(':
+            close = match_close(ct, j + 1)
+            inner = ct[j + 2:close]
+            if inner and all((t.kind == 'ident') or (t.kind == 'punct' and t.text == ':') for t in inner) \
+                    and any(t.kind == 'punct' for t in inner):
+                path = rf.src[inner[0].start:inner[-1].end]
+                edits.append(Edit(inner[0].start - base, inner[-1].end - base, f'|verif_e| {path}(verif_e)', None))
+                rules['R5'] = rules.get('R5', 0) + 1
+
     # loops
     loops = []
     j = body_open_idx + 1
@@ -656,7 +667,7 @@ def rewrite_signature(rf: RepoFile, it: Item, d: FnDirective, rules: dict, name_
     return sig.rstrip(), []
 
 
-def strip_item(rf: RepoFile, it: Item, rules: dict, pub_fields=True) -> list[Edit]:
+def strip_item(rf: RepoFile, it: Item, rules: dict, pub_fields=True, keep_clone=False) -> list[Edit]:
     """R1 (attrs, doc comments) and R4 (pub fields) on a struct/enum/const/type item. Offsets relative to it.attr_start."""
     base = it.attr_start
     toks = [t for t in rf.toks if it.attr_start <= t.start < it.end]
@@ -679,6 +690,9 @@ def strip_item(rf: RepoFile, it: Item, rules: dict, pub_fields=True) -> list[Edi
             if t.start < it.start and re.search(r'derive\s*\(', atext) and re.search(r'\bCopy\b', atext):
                 # R1c: a type that is Copy in /repo stays Copy (moves out of shared references depend on it)
                 keep = '#[derive(Clone, Copy)]'
+                rules['R1c'] = rules.get('R1c', 0) + 1
+            elif keep_clone and t.start < it.start and re.search(r'derive\s*\(', atext) and re.search(r'\bClone\b', atext):
+                keep = '#[derive(Clone)]'
                 rules['R1c'] = rules.get('R1c', 0) + 1
             edits.append(Edit(t.start - base, ct[k].end - base, keep + nl, None))
             rules['R1'] = rules.get('R1', 0) + 1
@@ -780,7 +794,7 @@ def emit(unit_dir: str, repo_root: str) -> Emitted:
             it = rf.find_item(kind, name)
             raw = rf.src[it.attr_start:it.end]
             sha = hashlib.sha256(rf.src[it.start:it.end].encode()).hexdigest()
-            edits = strip_item(rf, it, rules, pub_fields='nopub' not in opts)
+            edits = strip_item(rf, it, rules, pub_fields='nopub' not in opts, keep_clone='keepclone' in opts)
             lines = apply_edits(raw, it.attr_start, rf, edits)
             items.append({'file': rel, 'kind': kind, 'name': name, 'line': it.line, 'sha256': sha})
             for text, org in lines:
